@@ -4,7 +4,7 @@ from . import c05
 
 ID = 'C06'
 LEVEL = 'exploration'
-RULE = ('two families of cases. (doc) classic-algebra term x width x ribbon fraction x strategy, same enumeration/'
+RULE = ('three families of cases. (big) bracketed lists of 40..600 (thorough 2500) fragments and brackets nested 40..130 deep, at widths flat length + {0, 1, 50, 10^6}, both strategies: no line break at all. (doc) classic-algebra term x width x ribbon fraction x strategy, same enumeration/'
         'generation as C05 (all terms <= 5/6 nodes + random): every group with a direct line/softline that was laid '
         'out BROKEN although its flat reading reaches no forced break must be justified by an independent reference '
         'look-ahead (flat group + rest of line exceeds min(width-col, indent+ribbon-col); or, smart strategy only, a '
@@ -20,7 +20,9 @@ BUDGET = {'quick': {'random': 9000, 'shards': 16}, 'thorough': {'random': 400000
 
 
 STRINGS = ['plain words here', "rock'n'roll all night", "it's", "''''", 'say "hi" twice "ok"', '\'"\'"\'', 'back\\slash\\', 'tab\there',
-           'line\nbreak', 'é' * 12, '', 'x' * 40, "a'b'c'd'e'f", 'q"q"q"q']
+           'line\nbreak', 'é' * 12, '', 'x' * 40, "a'b'c'd'e'f", 'q"q"q"q',
+           # longer than any "practical" line: the one-line form is still owed at a width that holds it
+           'x' * 151, 'word ' * 40, 'y' * 149, 'z' * 150, "it's " * 50, 'w' * 400]
 
 
 def enumerate_cases(tier):
@@ -38,7 +40,57 @@ def enumerate_cases(tier):
                     yield {'kind': 'value', 'v': v, 'indent': indent}
 
 
+def big_cases(tier):
+    """documents whose flat form is long in characters and in nodes (hundreds of fragments on one line, groups nested
+    a hundred deep) at widths that hold it: nothing may break"""
+    ns = (40, 130, 600) if tier == 'quick' else (40, 130, 600, 2500)
+    for shape in ('flatlist', 'nested', 'nested-pairs'):
+        for n in ns:
+            if shape != 'flatlist' and n > 150:
+                continue
+            for slack in (0, 1, 50, 10 ** 6):
+                for strategy in ('smart', 'fast'):
+                    yield {'kind': 'big', 'shape': shape, 'n': n, 'slack': slack, 'strategy': strategy}
+
+
+def build_big(shape, n):
+    from prettyprinter.doc import concat, group, nest
+    from prettyprinter.doctypes import LINE, SOFTLINE
+
+    def bracket(inner):
+        return group(concat(['[', nest(4, concat([SOFTLINE, inner])), SOFTLINE, ']']))
+    if shape == 'flatlist':
+        items = ['x']
+        for _ in range(n - 1):
+            items += [',', LINE, 'x']
+        return bracket(concat(items)), 2 + n + 2 * (n - 1)
+    doc, flat = 'x', 1
+    for i in range(n):
+        if shape == 'nested-pairs' and i % 2:
+            doc, flat = bracket(concat([doc, ',', LINE, 'y'])), flat + 5
+        else:
+            doc, flat = bracket(doc), flat + 2
+    return doc, flat
+
+
+def oracle_big(case):
+    from prettyprinter import layout as L, sdoctypes
+    from .. import steps
+    doc, flat = build_big(case['shape'], case['n'])
+    w = flat + case['slack']
+    fn = L.layout_smart if case['strategy'] == 'smart' else L.layout_fast
+    stream, exceeded = steps.guarded(lambda: list(fn(doc, width=w, ribbon_frac=1.0)), cap=2 * 10 ** 7, cpu_seconds=20.0)
+    if exceeded:
+        return core.viol('no-termination-within-budget', 'layout of %s n=%d' % (case['shape'], case['n']))
+    text = refsem.stream_text(stream, sdoctypes)
+    if '\n' in text or len(text) != flat:
+        return core.viol('one-liner-broken', '%s n=%d: the flat form has %d columns, at width %d (%s) the layout has %d line breaks' % (
+            case['shape'], case['n'], flat, w, case['strategy'], text.count('\n')))
+    return core.ok(True, ['big', case['shape']])
+
+
 def fixed_cases():
+    yield from big_cases('quick')
     yield {'kind': 'value', 'v': ['list', [['int', 1], ['str', 'ab'], ['dict', [[['int', 1], ['tuple', [['int', 2]]]]]]]], 'indent': 4}
     yield {'kind': 'value', 'v': ['dict', [[['str', 'k'], ['list', [['float', 'nan'], ['fset', [['int', 1]]]]]]]], 'indent': 2}
 
@@ -123,4 +175,6 @@ def oracle_value(case):
 def oracle(case):
     if case.get('kind') == 'value':
         return oracle_value(case)
+    if case.get('kind') == 'big':
+        return oracle_big(case)
     return oracle_doc(case)
